@@ -79,8 +79,26 @@ def run(name, pids):
     return out
 
 
+def table():
+    rows = ["| seeded change | property | needs | reported by | through |", "|---|---|---|---|---|"]
+    for name in sorted(os.listdir(os.path.join(VERIF, "seeded"))):
+        m = json.load(open(os.path.join(VERIF, "seeded", name, "meta.json")))
+        det = ",".join(sorted(k for k, v in m.get("detected_by", {}).items() if v)) or "NOT REPORTED"
+        first = ""
+        for pid, r in m.get("runs", {}).items():
+            if r.get("exit") == 1 and len(r.get("first", [])) > 1:
+                first = r["first"][1].strip()[:90]
+                if pid == m["property"]:
+                    break
+        needs = " ".join(m.get("needs", "").split())[:110].replace("|", "/")
+        rows.append("| %s | %s | %s | %s | %s |" % (name, m["property"], needs, det, first.replace("|", "/")))
+    print("\n".join(rows))
+
+
 if __name__ == "__main__":
-    if sys.argv[1] == "verify":
+    if sys.argv[1] == "table":
+        table()
+    elif sys.argv[1] == "verify":
         print(json.dumps(verify(sys.argv[2], sys.argv[3], sys.argv[4]), indent=1))
     else:
         run(sys.argv[2], sys.argv[3:])
